@@ -161,7 +161,8 @@ def gen_poly(rng, n, tier):
         else:
             xs = [p[0] for p in pts]; ys = [p[1] for p in pts]
             q = [rng.uniform(min(xs) - 30 * sc, max(xs) + 30 * sc), rng.uniform(min(ys) - 30 * sc, max(ys) + 30 * sc)]
-        out.append({'pts': pts, 'q': q, 'edited': rng.random() < 0.3, 'qtrack': rng.choice([None, None, 'fresh', 'mapped'])})
+        out.append({'pts': pts, 'q': q, 'edited': rng.random() < 0.3, 'qtrack': rng.choice([None, None, 'fresh', 'mapped']),
+                    'qz': rng.choice([0.0, 0.0, 135.0, -12.5]), 'tz': rng.choice([0.0, 0.0, 135.0, 40.0])})
     for _ in range(max(8, n // 100)):
         # long polylines digitised finely one way and coarsely the other (an out-and-back road): the nearest segment is far, in index, from the nearest vertex
         m = rng.choice([150, 301, 420]); h = rng.choice([6.0, 10.0, 15.5])
@@ -192,13 +193,13 @@ def run_poly(case):
         for k, (x, y) in enumerate(case['pts']):
             tr.getObs(k).position.setX(x); tr.getObs(k).position.setY(y)
     else:
-        tr = Track([Obs(ENUCoords(x, y, 0), ObsTime.readUnixTime(k)) for k, (x, y) in enumerate(case['pts'])])
-    c, d2, i2 = mp.mapOnTrack(ENUCoords(case['q'][0], case['q'][1], 0), tr)
+        tr = Track([Obs(ENUCoords(x, y, case.get('tz', 0.0)), ObsTime.readUnixTime(k)) for k, (x, y) in enumerate(case['pts'])])
+    c, d2, i2 = mp.mapOnTrack(ENUCoords(case['q'][0], case['q'][1], case.get('qz', 0.0)), tr)       # altitudes play no part: the projection is planimetric
     res = {'d': float(d), 'px': float(px), 'py': float(py), 'i': int(i), 'map': [float(c.getX()), float(c.getY()), float(d2), int(i2)]}
     if case.get('qtrack'):
         # the track form of mapOnTrack: the query is a one-fix track, fresh or itself the result of an earlier mapOnTrack on another polyline
         # (it then already carries the features the result is reported in)
-        qt = Track([Obs(ENUCoords(case['q'][0], case['q'][1], 0), ObsTime.readUnixTime(5))])
+        qt = Track([Obs(ENUCoords(case['q'][0], case['q'][1], case.get('qz', 0.0)), ObsTime.readUnixTime(5))])
         if case['qtrack'] == 'mapped':
             other = Track([Obs(ENUCoords(case['q'][0] - 3.0, case['q'][1] - 40.0, 0)), Obs(ENUCoords(case['q'][0] + 5.0, case['q'][1] - 40.0, 0)), Obs(ENUCoords(case['q'][0] + 50.0, case['q'][1] - 45.0, 0))])
             qt2 = mp.mapOnTrack(qt, other)
